@@ -61,6 +61,10 @@ class Gen:
             kind = self.rng.choice(["union", "unions"])
             f = self.newfield(kind, "U0")
             return {"op": "cap", "f": f, "fk": kind, "kid": {"op": "union", "u": "U0"}}
+        if getattr(self, "use_user", False) and r > 0.88:
+            kind = self.rng.choice(["unode", "unodes"])
+            f = self.newfield(kind)
+            return {"op": "cap", "f": f, "fk": kind, "kid": {"op": "user"}}
         kinds = ["string", "strings", "bool"] + self.kinds_extra
         kind = self.rng.choice(kinds)
         if self.fields and self.fields[-1]["kind"] == kind and kind in ("string", "strings") and self.rng.random() < 0.4 and self.lastcap_ok:
@@ -128,7 +132,7 @@ class Gen:
 def nullable(n):
     op = n["op"]
     if op == "lit": return n["s"] == "" and n["t"] == ""   # "" matches EOF without consuming
-    if op in ("ref", "neg", "prod", "union"): return False  # prods are made non-nullable below
+    if op in ("ref", "neg", "prod", "union", "user"): return False  # prods are made non-nullable below
     if op == "look": return True
     if op == "seq": return all(nullable(k) for k in n["kids"])
     if op == "alt": return any(nullable(k) for k in n["kids"])
@@ -167,7 +171,7 @@ def render(n, out):
     elif op == "cap":
         out.append(("@", n["f"]))
         k = n["kid"]
-        if k["op"] in ("prod", "union"):
+        if k["op"] in ("prod", "union", "user"):
             out.append("@")
         elif k["op"] in ("lit", "ref"):
             render(k, out)
@@ -270,6 +274,7 @@ def sample(n, prods, unions, rng, depth):
         if depth <= 0: return ["z"]
         return sample(prods[rng.choice(unions[n["u"]])], prods, unions, rng, depth - 1)
     if op == "neg": return [rng.choice(["z", "a", "7", "("])]
+    if op == "user": return [rng.choice(["z", "x", "7", "("])]
     if op == "look": return []
     raise ValueError(op)
 
@@ -288,13 +293,14 @@ def conv_table():
     return {"int8": dict(CONV)}
 
 
-def make_grammar(rng, gid, extra_kinds=(), with_pos=False, neglook=True, name_elided=True, ks=(0, 1, 2, -1), ci=None, trailing=None):
+def make_grammar(rng, gid, extra_kinds=(), with_pos=False, neglook=True, name_elided=True, ks=(0, 1, 2, -1), ci=None, trailing=None, use_user=False):
     for _attempt in range(200):
         nprods = rng.choice([1, 2, 2, 3])
         use_union = rng.random() < 0.4
         g = Gen(rng, nprods, use_union, list(extra_kinds))
         g.neglook = neglook
         g.name_elided = name_elided
+        g.use_user = use_user
         prods = []
         ok = True
         for pi in range(nprods):
